@@ -196,6 +196,12 @@ class FnTranslator:
         if name in INPLACE_METHODS and isinstance(e.func, ast.Attribute):
             for nm in sorted(recv[0]):
                 self.pre.append(("write", nm, e.lineno, f".{name}()"))
+        # `x.byteswap(inplace=True)`, `x.byteswap(True)` and any other method given a true `inplace=` write their receiver
+        if isinstance(e.func, ast.Attribute) and (
+                any(k.arg == "inplace" and not (isinstance(k.value, ast.Constant) and not k.value.value) for k in e.keywords)
+                or (name == "byteswap" and e.args and not (isinstance(e.args[0], ast.Constant) and not e.args[0].value))):
+            for nm in sorted(recv[0]):
+                self.pre.append(("write", nm, e.lineno, f".{name}(inplace)"))
         if name in INPLACE_FUNCS and e.args:
             for nm in sorted(args[0][0]):
                 self.pre.append(("write", nm, e.lineno, f"{name}()"))
